@@ -51,6 +51,9 @@ impl Prop for DestFaults {
 }
 
 impl RandomProp for DestFaults {
+    fn max_shrink_iters() -> u32 {
+        150
+    }
     fn strategy(_env: &Env) -> BoxedStrategy<FaultCase> {
         (workload(4, 0), any::<bool>(), proptest::collection::vec(1usize..12, 1..6))
             .prop_map(|(w, with_shx, chunks)| FaultCase { w, with_shx, chunks })
